@@ -19,6 +19,7 @@ type CEnv struct {
 	vars  map[string]TT
 	cur   *State
 	old   *State
+	pre   *State // loop invariants: the state at loop entry (before the loop's havoc)
 	pkg   string
 	guard Term
 	depth int
@@ -239,7 +240,9 @@ func (c *CEnv) selectField(xv TT, f string) (TT, error) {
 		for i := 0; i < st.NumFields(); i++ {
 			if st.Field(i).Name() == f {
 				key, fs, ft := e.fieldKey(p.Elem(), i)
-				return TT{sel(e.heapGet(c.cur, key), xv.Term, fs), ft}, nil
+				v := sel(e.heapGet(c.cur, key), xv.Term, fs)
+				c.heapValueFacts(v, ft, xv.Term)
+				return TT{v, ft}, nil
 			}
 		}
 		// promoted through embedded struct values
@@ -399,6 +402,14 @@ func (c *CEnv) evalCall(n *CCall) (TT, error) {
 			return TT{}, err
 		}
 		return c.sub(c.old).eval(n.Args[0])
+	case "pre":
+		if err := argN(1); err != nil {
+			return TT{}, err
+		}
+		if c.pre == nil {
+			return TT{}, fmt.Errorf("pre() is only meaningful in loop invariants")
+		}
+		return c.sub(c.pre).eval(n.Args[0])
 	case "len", "cap":
 		if err := argN(1); err != nil {
 			return TT{}, err
@@ -439,7 +450,22 @@ func (c *CEnv) evalCall(n *CCall) (TT, error) {
 		if _, isIface := t.Underlying().(*types.Interface); isIface {
 			return TT{e.implements(x.Term, t), nil}, nil
 		}
-		return TT{eq(T(SInt, "(tag %s)", x.S), e.typeID(t)), nil}, nil
+		isT := eq(T(SInt, "(tag %s)", x.S), e.typeID(t))
+		// ground instance of: a value of dynamic type T is the box of its payload
+		e.assume(tTrue, implies(isT, eq(e.box(t, e.unbox(t, x.Term)), x.Term)))
+		return TT{isT, nil}, nil
+	case "arr":
+		// the backing array of a slice as a value
+		x, err := c.eval(n.Args[0])
+		if err != nil {
+			return TT{}, err
+		}
+		sl, ok := x.T.Underlying().(*types.Slice)
+		if x.T == nil || !ok {
+			return TT{}, fmt.Errorf("arr() of non-slice")
+		}
+		es := e.sortOf(sl.Elem())
+		return TT{sel(e.heapGet(c.cur, e.memKey(es)), T(SInt, "(s_arr %s)", x.S), arraySort(SInt, es)), nil}, nil
 	case "box":
 		// box(x) boxes a typed value into an interface
 		x, err := c.eval(n.Args[0])
@@ -726,4 +752,20 @@ func (e *Enc) modKeys(m CExpr, c *Contract) []string {
 		}
 	}
 	return []string{"*"}
+}
+
+// heapValueFacts: a value read from an allocated object is well formed and refers only to allocated objects
+// (heap invariant; guarded by the allocatedness of the object read, so that it says nothing about unallocated cells).
+func (c *CEnv) heapValueFacts(v Term, t types.Type, ref Term) {
+	e := c.e
+	switch t.Underlying().(type) {
+	case *types.Pointer, *types.Slice, *types.Map, *types.Interface:
+	default:
+		return
+	}
+	alloc := e.heapGet(c.cur, e.allocKey())
+	guard := T(SBool, "(and (> %s 0) (< %s %s))", ref.S, ref.S, alloc.S)
+	for _, f := range e.typeFacts(v, t, alloc) {
+		e.assume(tTrue, implies(guard, f))
+	}
 }
